@@ -123,6 +123,9 @@ fn lifecycle(s: &mut Src, p: &Profile) -> Vec<Op> {
         1 => Op::FutSync { o, body, slot, id: 0 },
         _ => Op::After { o, g, body: steps(s, &p.stepw, (0, 1), false, 0), slot, id: 0 },
     });
+    if p.lifecycle_release_pct > 0 && s.pct(p.lifecycle_release_pct) {
+        out.push(Op::Release { o });
+    }
     for _ in 0..s.range(0, 4) {
         out.push(match s.weighted(&[3, 3, 2, 2, 1]) {
             0 => Op::PollOnce { slot },
